@@ -7,21 +7,28 @@ from mirsmt.models_reg import run_closure
 from mirsmt.sym import Ptr, Agg, Enum, Native, Fork, Diverge, UNIT, bv, Opaque, TailCall
 
 ASSUME = ["reduced scope: hyper/tokio (request parsing, connection handling, garbage / half-open / reset connections, concurrent scrapers, the status line on the wire) need a running process and are outside this check",
-          "ipnet::IpNet::contains is an uninterpreted predicate contains(net, ip) (trusted: the ipnet crate); IpNet::from_str accepts exactly CIDR notation `addr/len` and "
-          "IpAddr::from_str exactly plain addresses (their documented contracts); peer_addr() returns Ok(any address) or Err",
+          "ipnet (trusted crate) is modelled by its documented contract on IPv4 values (address + prefix length): contains / trunc / network / broadcast / netmask, derived Eq/Ord; IPv6 is outside the encoding; "
+          "IpNet::from_str accepts exactly CIDR notation `addr/len` and IpAddr::from_str exactly plain addresses (their documented contracts); peer_addr() returns Ok(any address) or Err; "
+          "TcpListener::bind / set_nonblocking / from_std succeed (start-up failures are outside this check)",
           "handle_http_request is executed as the compiler-generated state machine (two polls); the blocking render task completes with the value of the closure that was spawned",
           "tracing macro expansions are opaque"]
 TRACING = [r"tracing", r"__CALLSITE", r"LevelFilter", r"DefaultCallsite", r"Interest", r"ValueSet", r"FieldSet", r"Metadata", r"Event::", r"__macro_support", r"fmt::Arguments", r"core::fmt", r"^Arguments::", r"^debug$", r"tracing-0\.1"]
 NMAX = 3
 
 
-def allow_decision(e3):
+def allow_decision(e3, nets_len):
+    """The allowlist as the real pipeline handles it: new_http_listener(handle, addr, allowlist) builds the exporter (whatever it does
+    to the list on the way), then check_tcp_allowed(&exporter, stream) decides. Networks and peer are concrete-width symbolic values
+    (IPv4: address + prefix length), so code that sorts, truncates, de-duplicates or bisects the list is followed exactly."""
+    from mirsmt import models_net as MN, models_str as MS
     P = _e3.program(["metrics-exporter-prometheus"])
-    n = z3.Int("allowlist_len")
-    configured = z3.Bool("allowlist_configured")
+    configured = nets_len is not None
+    L = nets_len or 0
     peer_ok = z3.Bool("peer_addr_ok")
-    ip = z3.BitVec("peer_ip", 128)
-    contains = z3.Function("contains", z3.IntSort(), z3.BitVecSort(128), z3.BoolSort())
+    ipv = z3.BitVec("peer_ip", 32)
+    addrs = [z3.BitVec(f"net{i}_addr", 32) for i in range(L)]
+    plens = [z3.BitVec(f"net{i}_prefix_len", 8) for i in range(L)]
+    rng = [z3.ULE(p, z3.BitVecVal(32, 8)) for p in plens] + [z3.Extract(31, 24, ipv) == z3.BitVecVal(127, 8)]
 
     def m_peer_addr(eng, ctx, f, path, args, dty):
         return Fork([(peer_ok, Enum(0, {0: Agg({0: Native("sockaddr", None)})}, "Result")), (z3.Not(peer_ok), Enum(1, {1: Agg({0: Opaque("io::Error")})}, "Result"))])
@@ -31,79 +38,72 @@ def allow_decision(e3):
         if not (isinstance(e, Enum) and isinstance(e.discr, int)):
             raise sym.Unsupported("map_or_else on a symbolic Result")
         return TailCall(args[2], [e.v[0].f[0]]) if e.discr == 0 else TailCall(args[1], [e.v[1].f[0]])
-
-    def m_ip(eng, ctx, f, path, args, dty):
-        return ip
-
-    def m_any(eng, ctx, f, path, args, dty):
-        it = args[0]
-        itv = eng.load_ptr(ctx, it) if isinstance(it, Ptr) else it
-        if not (isinstance(itv, Native) and itv.kind == "netiter"):
-            raise sym.Unsupported(f"Iterator::any over {itv}")
-        r = z3.BoolVal(False)
-        for i in range(NMAX):
-            hit = run_closure(eng, ctx, args[1], [Native("net", i)])
-            r = z3.Or(r, z3.And(z3.IntVal(i) < n, eng.as_bool(hit)))
-        return r
-
-    def m_all(eng, ctx, f, path, args, dty):
-        r = z3.BoolVal(True)
-        for i in range(NMAX):
-            hit = run_closure(eng, ctx, args[1], [Native("net", i)])
-            r = z3.And(r, z3.Implies(z3.IntVal(i) < n, eng.as_bool(hit)))
-        return r
-
-    def m_contains(eng, ctx, f, path, args, dty):
-        net = args[0]
-        a = args[1]
-        if isinstance(a, Ptr):
-            a = eng.load_ptr(ctx, a)
-        if not (isinstance(net, Native) and net.kind == "net" and z3.is_expr(a)):
-            raise sym.Unsupported(f"IpNet::contains({net}, {a})")
-        return contains(z3.IntVal(net.data), a)
-
-    m = {r"TcpStream::peer_addr$": m_peer_addr, r"Result::map_or_else$": m_map_or_else, r"SocketAddr::ip$": m_ip,
-         r"^<Vec as Deref>::deref$": models.m_identity, r"core::slice::.*::iter$|^<impl \[IpNet\]>::iter$|::iter$": lambda eng, ctx, f, path, args, dty: Native("netiter", None),
-         r"as Iterator>::any$": m_any, r"as Iterator>::all$": m_all, r"IpNet::contains$": m_contains}
+    m = {r"TcpStream::peer_addr$": m_peer_addr, r"Result::map_or_else$": m_map_or_else, r"SocketAddr::ip$": lambda eng, ctx, f, path, args, dty: MN.ip(ipv),
+         r"^std::net::TcpListener::bind$|^TcpListener::bind$": lambda *a: Enum(0, {0: Agg({0: Opaque("std listener")})}, "Result"),
+         r"TcpListener::set_nonblocking$": lambda *a: Enum(0, {0: Agg({0: UNIT})}, "Result"),
+         r"TcpListener::from_std$": lambda *a: Enum(0, {0: Agg({0: Opaque("tokio listener")})}, "Result"),
+         r"^Box::pin$": models.m_identity}
+    m.update(MN.NET)
+    m.update(models.RESULT)
     m.update(models.BASE)
-    eng = sym.Engine(P, models=m, opaque=TRACING)
+    eng = sym.Engine(P, models=m, opaque=TRACING, loop_bound=L + 3, max_paths=4000)
     eng.merging = False
-    b = P.find("HttpListeningExporter", "check_tcp_allowed")
+    MN.install(eng)
+    new_b = P.find_fn("new_http_listener")
+    chk_b = P.find("HttpListeningExporter", "check_tcp_allowed")
     ctx0 = sym.Ctx(eng, 1)
-    ctx0.statics = {"exp": Agg({0: Opaque("handle"), 1: Enum(z3.If(configured, bv(1), bv(0)), {1: Agg({0: Native("netvec", None)})}, "Option"), 2: Opaque("listener")})}
+    lst = Enum(1, {1: Agg({0: MS.lvec(tuple(MN.net(a, p) for a, p in zip(addrs, plens)))})}, "Option") if configured else Enum(0, {}, "Option")
 
     def script():
-        r = yield ("call", b, [Ptr(("static", "exp")), Opaque("stream")])
+        r = yield ("call", new_b, [Opaque("handle"), Opaque("listen address"), lst])
+        if not (isinstance(r, Enum) and r.discr == 0):
+            raise sym.Unsupported(f"new_http_listener did not return Ok: {r}")
+        fut = r.v[0].f[0]
+        while isinstance(fut, Agg) and len(fut.f) == 1:
+            fut = list(fut.f.values())[0]
+        if not (isinstance(fut, sym.Closure) and fut.caps):
+            raise sym.Unsupported(f"exporter future: {fut}")
+        exp = fut.caps.get("exporter", list(fut.caps.values())[0])
+        yield ("setstatic", "exp", exp)
+        r = yield ("call", chk_b, [Ptr(("static", "exp")), Opaque("stream")])
         return r
-    leaves = eng.run_script(1, "check_tcp_allowed", script, ctx0=ctx0)
+    leaves = eng.run_script(1, "new_http_listener; check_tcp_allowed", script, ctx0=ctx0)
     e3.absorb(eng)
     done = [l for l in leaves if l.status == "done"]
     other = z3.Or(*[l.taken() for l in leaves if l.status != "done"] or [z3.BoolVal(False)])
-    allowed = z3.Or(*[z3.And(l.taken(), eng.as_bool(l.ret)) for l in done])
-    inside = z3.Or(*[z3.And(z3.IntVal(i) < n, contains(z3.IntVal(i), ip)) for i in range(NMAX)])
-    rng = [n >= 0, n <= NMAX]
-    bounds = f"check_tcp_allowed with its closures, from entry to return; allowlist None or a list of 0..{NMAX} networks; peer address arbitrary (128 bits) or unavailable"
+    allowed = z3.Or(*[z3.And(l.taken(), eng.as_bool(l.ret)) for l in done] or [z3.BoolVal(False)])
+    inside = z3.Or(*[MN.contains_ip(MN.net(a, p), ipv) for a, p in zip(addrs, plens)]) if L else z3.BoolVal(False)
+    tag = "none" if not configured else f"n{L}"
+    bounds = (f"new_http_listener (the exporter it builds) followed by check_tcp_allowed with its closures; allowlist " + ("not configured" if not configured else f"of {L} IPv4 network(s), any address and prefix length 0..32 (nested, overlapping, duplicated, unsorted, with host bits)")
+              + "; peer: any address in 127.0.0.0/8 (so that the case can be replayed over loopback) or unavailable")
+
+    def dotted(x):
+        return ".".join(str((x >> s) & 255) for s in (24, 16, 8, 0))
 
     def on_model(ob, model):
-        nets = model.eval(n, model_completion=True).as_long()
-        ipv = model.eval(ip, model_completion=True).as_long()
-        row = {"allowlist_configured": z3.is_true(model.eval(configured, model_completion=True)), "allowlist_len": nets, "peer_addr_ok": z3.is_true(model.eval(peer_ok, model_completion=True)),
-               "peer_in_net": [z3.is_true(model.eval(contains(z3.IntVal(i), ip), model_completion=True)) for i in range(nets)], "peer_ip": hex(ipv),
-               "code_allows": z3.is_true(model.eval(allowed, model_completion=True))}
+        ev = lambda t: model.eval(t, model_completion=True)
+        nets = [f"{dotted(ev(a).as_long())}/{ev(p).as_long()}" for a, p in zip(addrs, plens)]
+        pip = ev(ipv).as_long()
+        row = {"allowlist": nets if configured else None, "peer": dotted(pip), "peer_addr_ok": z3.is_true(ev(peer_ok)), "peer_inside_a_listed_network": z3.is_true(ev(inside)), "code_allows": z3.is_true(ev(allowed))}
         ob.sample = row
-        replay_native(ob, "c18_allow", ob.name.split(":")[1], {"configured": int(row["allowlist_configured"]), "n": nets, "peer_ok": int(row["peer_addr_ok"]),
-                                                                "inmask": sum(1 << i for i, x in enumerate(row["peer_in_net"]) if x), "allows": int(row["code_allows"])})
-    specs = [dict(name="c18_allow:witness", desc="some configuration serves and some refuses", bounds=bounds, cons=rng + [allowed, configured], expect_unsat=False),
-             dict(name="c18_allow:terminates", desc="check_tcp_allowed panics or does not return", bounds=bounds, cons=rng + [other], expect_unsat=True),
-             dict(name="c18_allow:outside_peer_refused", desc="a peer whose address lies in none of the listed networks is allowed", bounds=bounds,
-                  cons=rng + [configured, peer_ok, z3.Not(inside), allowed], expect_unsat=True, on_model=on_model),
-             dict(name="c18_allow:inside_peer_served", desc="a peer inside one of the listed networks is refused", bounds=bounds,
-                  cons=rng + [configured, peer_ok, inside, z3.Not(allowed)], expect_unsat=True, on_model=on_model),
-             dict(name="c18_allow:no_allowlist_serves_everyone", desc="without an allowlist a peer is refused", bounds=bounds,
-                  cons=rng + [z3.Not(configured), z3.Not(allowed)], expect_unsat=True, on_model=on_model),
-             dict(name="c18_allow:unknown_peer_refused", desc="with an allowlist configured, a connection whose peer address cannot be determined is allowed", bounds=bounds,
-                  cons=rng + [configured, z3.Not(peer_ok), allowed], expect_unsat=True, on_model=on_model)]
-    check.discharge_many(e3.res, specs, 60)
+        inputs = {"configured": int(configured), "n": L, "peer_ok": int(row["peer_addr_ok"]), "peer": pip, "inside": int(row["peer_inside_a_listed_network"]), "allows": int(row["code_allows"])}
+        for i, (a, p) in enumerate(zip(addrs, plens)):
+            inputs[f"addr{i}"] = ev(a).as_long()
+            inputs[f"plen{i}"] = ev(p).as_long()
+        replay_native(ob, "c18_allow", ob.name.split(":")[1], inputs)
+    nm = f"c18_allow_{tag}"
+    specs = [dict(name=f"{nm}:witness", desc="the decision is reached", bounds=bounds, cons=rng + [z3.Or(*[l.taken() for l in done] or [z3.BoolVal(False)])], expect_unsat=False),
+             dict(name=f"{nm}:terminates", desc="building the exporter or check_tcp_allowed panics or does not return", bounds=bounds, cons=rng + [other], expect_unsat=True, on_model=on_model)]
+    if configured:
+        specs += [dict(name=f"{nm}:outside_peer_refused", desc="a peer whose address lies in none of the listed networks is allowed", bounds=bounds,
+                       cons=rng + [peer_ok, z3.Not(inside), allowed], expect_unsat=True, on_model=on_model),
+                  dict(name=f"{nm}:inside_peer_served", desc="a peer inside one of the listed networks is refused", bounds=bounds,
+                       cons=rng + [peer_ok, inside, z3.Not(allowed)], expect_unsat=True, on_model=on_model),
+                  dict(name=f"{nm}:unknown_peer_refused", desc="with an allowlist configured, a connection whose peer address cannot be determined is allowed", bounds=bounds,
+                       cons=rng + [z3.Not(peer_ok), allowed], expect_unsat=True, on_model=on_model)]
+    else:
+        specs += [dict(name=f"{nm}:no_allowlist_serves_everyone", desc="without an allowlist a peer is refused", bounds=bounds, cons=rng + [z3.Not(allowed)], expect_unsat=True, on_model=on_model)]
+    check.discharge_many(e3.res, specs, 120)
 
 
 def replay_native(ob, scen, pname, inputs):
@@ -322,7 +322,8 @@ def syntax_table(e3):
 
 def run(tier, seed, t0):
     e3 = _e3.E3("C18")
-    for nm, fn in (("c18_allow", allow_decision), ("c18_response", response_table), ("c18_syntax", syntax_table)):
+    jobs = [(f"c18_allow_{'none' if n is None else 'n' + str(n)}", (lambda e, n=n: allow_decision(e, n))) for n in ([None, 1, 2, 3] if tier == "quick" else [None, 1, 2, 3, 4])]
+    for nm, fn in jobs + [("c18_response", response_table), ("c18_syntax", syntax_table)]:
         try:
             fn(e3)
         except sym.Unsupported as ex:
